@@ -116,7 +116,7 @@ def main():
     return doc
 
 
-HOOK_COMMITS = []
+HOOK_COMMITS = ['823e7548eba69f4a3e730c1657be1dbdf9b4a449']
 
 if __name__ == '__main__':
     main()
